@@ -281,7 +281,93 @@ def s_units(ctx, which):
         ctx.units.remove(ue)
 
 
+MEMBER_KIND = {"ParticleSwarmOptimizer": "KHill", "GeneticAlgorithmOptimizer": "KHill", "EvolutionStrategyOptimizer": "KHill",
+               "DifferentialEvolutionOptimizer": "KHill", "SpiralOptimization": "KSpiral", "ParallelTemperingOptimizer": "KAnnealing"}
+
+
+def s_units_population(ctx):
+    """every evaluate / evaluate_init of a population MEMBER (its own tracker) against the model of its class,
+    with pos_new := the position the driver really evaluated (so a member that recorded another position shows up)"""
+    u = ctx.unit("S:member evaluate (population optimizers)", "S",
+                 "every step of ParticleSwarm / Spiral / ParallelTempering / GeneticAlgorithm / EvolutionStrategy / "
+                 "DifferentialEvolution runs (populations 3-6, lattice and half-space constraints to force the fallback paths, "
+                 "non-finite scores): the member that evaluated must go from its observed tracker state, with pos_new = the "
+                 "position the driver evaluated, to its observed post-state under the model of its class (hill climbing / "
+                 "spiral / simulated annealing evaluate); non-trivial = the member's current or best changed; "
+                 "distinct by (optimizer, seed, step)")
+    rng = ctx.sub_rng("pop")
+    lits, cases = [], []
+    names = list(MEMBER_KIND)
+    n = 24 if ctx.quick else 180
+    for it in range(n):
+        name = names[it % len(names)]
+        spec = dunit.general_spec(rng, name, max_calls=1, metrics=0, nonfinite=rng.choice([0, 0, 0.15]), constraint=rng.random() < 0.6,
+                                  sizes=(3, 5, 8), max_points=80, n_max=24, verbosity=False, steps_api=True, ndims=rng.choice([1, 2]),
+                                  cfg=dict(population=rng.choice([4, 5, 6])))
+        spec["calls"][0]["n_iter"] = 24
+        spec["calls"][0]["memory"] = False
+        out = instr.run_steps(spec, rnglog=True, keep_valid=True, per_step_s=10)
+        if out["opt"] is None:
+            ctx.blocked.append(dict(spec=dunit.spec_brief(spec), exc=out["exc"][:2] if out["exc"] else None))
+            continue
+        opt = out["opt"]
+        members = list(opt.optimizers)
+        P = len(members)
+        ss = Scaler()
+        for st in out["steps"]:
+            for s_ in st["states"].values():
+                for v in (s_["score_new"], s_["score_current"], s_["score_best"]):
+                    ss.add(v)
+                for _, v in s_["valid"]:
+                    ss.add(v)
+            ss.add(st["score"])
+        sp, cl, vs = space_lits(spec["space"], spec.get("feasible"))
+        prev = None
+        for st in out["steps"]:
+            cur = st["states"]
+            if prev is None:
+                blank = dict(pos_new=None, score_new=-math.inf, pos_current=None, score_current=-math.inf, pos_best=None,
+                             score_best=-math.inf, valid=[], nth_trial=0)
+                prev = {k: blank for k in cur}
+            moved = [k for k in cur if k.startswith("member") and cur[k]["nth_trial"] == prev[k]["nth_trial"] + 1]
+            if len(moved) != 1:
+                u.mismatches.append(dict(case=dict(optimizer=name, spec=dunit.spec_brief(spec), step=(st["call"], st["k"]), moved=moved),
+                                         note="not exactly one member evaluated in this step"))
+                prev = cur
+                continue
+            who = moved[0]
+            mem = members[int(who[6:])]
+            split = st["rng_split"] if st["rng_split"] is not None else len(st["rng"])
+            r_ev = st["rng"][split:]
+            if name == "ParallelTemperingOptimizer" and not st["is_init"]:
+                outer_trial = prev["self"]["nth_trial"]
+                if opt.n_iter_swap != 0 and outer_trial % opt.n_iter_swap == 0:
+                    r_ev = r_ev[2 * P:]                      # _swap_pos: uniform + choice per system
+            kind = MEMBER_KIND[name]
+            cfg = "(mkAlgoCfg %s %s %s (0, 0) %s 1 100)" % (sp, cl, kind, cz(getattr(mem, "n_neighbours", 3)))
+            pre = dict(prev[who], pos_new=st["pos"])
+            stl = "(mkAlgoState %s [] %s 0)" % (trk_lit(pre, ss), tape_lit(r_ev))
+            fn = "algo_evaluate_init" if st["is_init"] else "algo_evaluate %s" % cfg
+            lits.append("(match %s %s %s with Ok s' => trk_eqb (h_trk s' <| t_nth_init := 0 |>) %s && match h_tape s' with [] => true | _ => false end | Err _ => false end)"
+                        % (fn, stl, ss.score(st["score"]), trk_lit(cur[who], ss)))
+            cases.append(dict(optimizer=name, spec=dunit.spec_brief(spec), step=(st["call"], st["k"]), member=who, init=st["is_init"], evaluated=st["pos"],
+                              score=st["score"], pre=jsonable(prev[who]), post=jsonable(cur[who]), draws=jsonable(r_ev)))
+            changed = (cur[who]["pos_current"], cur[who]["score_current"], cur[who]["pos_best"], cur[who]["score_best"]) != \
+                      (prev[who]["pos_current"], prev[who]["score_current"], prev[who]["pos_best"], prev[who]["score_best"])
+            u.count((name, spec["seed"], st["k"]), nontrivial=changed)
+            u.bump(name)
+            prev = cur
+    u.samples = cases[:2]
+    hdr = HDR + "From RecordUpdate Require Import RecordSet.\nImport RecordSetNotations.\n"
+    failing, err = coq_eval_cases(u.name, hdr, "bool", lits, "fun b => b", shard=60)
+    u.error = err
+    for i in failing[:10]:
+        u.mismatches.append(dict(case=cases[i], note="a population member's evaluate differs from the model (or the member recorded another position than the one evaluated)"))
+
+
 def run(ctx, which="ALL"):
     if which in ("C01", "C02", "C08", "ALL"):
         k_units(ctx)
     s_units(ctx, which)
+    if which in ("C19", "ALL"):
+        s_units_population(ctx)
